@@ -704,6 +704,14 @@ class SObj(Sym):
     def __iter__(self):
         raise Unsupported(f"iteration over an opaque object of class {self.cls!r}")
 
+    def __bool__(self):
+        """truth value of an opaque object: by its schema, else an uninterpreted predicate of the object (both outcomes are explored);
+        it is never silently True"""
+        sch = OBJ_SCHEMAS.get(self.cls) or {}
+        if "__bool__" in sch:
+            return sch["__bool__"](self)
+        return cur().decide(z3.Function("truthy", Obj, z3.BoolSort())(self.e))
+
     def __call__(self, *a, **k):
         sch = OBJ_SCHEMAS.get(self.cls) or {}
         if "__call__" not in sch:
